@@ -303,9 +303,14 @@ impl Manifest {
     pub fn rollover(&mut self) -> Result<(), SError> {
         let edit = Self::to_edit(&self.strs, &self.info);
         let next_id = self.last_rollover;
-        self.last_rollover += 1;
-        let back = BACKUP(&self.root, next_id);
-        self.poison(hard_link(MANIFEST(&self.root), back))?;
+        // A crash between the hard_link and the rename below leaves MANIFEST and the newest
+        // backup as two names of one file.  Linking it again under the next number would
+        // duplicate that fragment, and the duplicate does not chain from its twin.
+        if !Self::is_backed_up_as(&self.root, next_id.wrapping_sub(1)) {
+            self.last_rollover += 1;
+            let back = BACKUP(&self.root, next_id);
+            self.poison(hard_link(MANIFEST(&self.root), back))?;
+        }
         let tmp = TEMPORARY(&self.root);
         if tmp.exists() {
             self.poison(remove_file(&tmp))?
@@ -483,6 +488,14 @@ impl Manifest {
             Some(Ok(edit)) => Ok(Some(edit)),
             Some(Err(err)) => Err(err),
             None => Ok(None),
+        }
+    }
+
+    fn is_backed_up_as<P: AsRef<Path>>(root: P, idx: u64) -> bool {
+        use std::os::unix::fs::MetadataExt;
+        match (metadata(MANIFEST(&root)), metadata(BACKUP(&root, idx))) {
+            (Ok(lhs), Ok(rhs)) => lhs.dev() == rhs.dev() && lhs.ino() == rhs.ino(),
+            _ => false,
         }
     }
 
